@@ -292,6 +292,28 @@ def sized_object(rng, size_class):
     return {"k": leaf, "t": (1, 2.5, None), "l": [leaf]}
 
 
+BIG_SIZES = {"1m+": [1048575, 1048576, 1048577], "2m": [2 * 1048576], "5m": [5 * 1048576]}
+
+
+def big_leaf_object(rng, size_class):
+    """One single large leaf (bytes / str / bytearray) — handed to the target's write() in ONE call by the
+    pickler — inside a small shell, with something pickled after it."""
+    n = rng.choice(BIG_SIZES[size_class])
+    kind = rng.randrange(3)
+    if kind == 0:
+        leaf = bytes(rng.getrandbits(8) for _ in range(4099)) * (n // 4099) + b"q" * (n % 4099)
+    elif kind == 1:
+        leaf = ("0123456789abcdef" * (n // 16 + 1))[:n]
+    else:
+        leaf = bytearray(b"\x00\x7f\x80\xff" * (n // 4 + 1))[:n]
+    shell = rng.randrange(3)
+    if shell == 0:
+        return [leaf, ("after", 1, 2.5)]
+    if shell == 1:
+        return {"blob": leaf, "again": [leaf], "tail": None}
+    return Plain(big=leaf, tail="t")
+
+
 def batch_object(rng):
     """Lists / dicts / sets whose lengths straddle pickle's 1000-item batching."""
     n = rng.choice([999, 1000, 1001, 1999, 2000, 2001])
